@@ -347,3 +347,61 @@ func (w *World) dumpContainerFields() []byte {
 	b, _ := json.MarshalIndent(map[string]any{"_comment": "map / sync / channel typed struct fields of gleece (container state), reviewed; see checker/globals.go", "fields": out}, "", " ")
 	return append(b, '\n')
 }
+
+// checkNoDroppedParameters: a named parameter that its function never uses is an input that was
+// handed over and dropped (a configuration that no longer reaches the validators it was passed
+// for, a file that is no longer consulted). On the reviewed tree three parameters are unused;
+// any other is reported. (Blank `_` parameters and closures - callbacks with a fixed shape -
+// are exempt.)
+var reviewedUnusedParams = map[string]string{
+	"(*core/visitors.EnumVisitor).VisitEnumType file": "kept for symmetry with the other Visit* methods; the enum's file is taken from the package lookup",
+	"cmd.ExecuteWithArgs redirectLogs":                 "test hook: the flag is read by the tests' own logger setup",
+	"gast.ResolveNamedType file":                       "the lookup is by package and name; the file is not needed",
+}
+
+func checkNoDroppedParameters(c *Ctx, r *Report, clause string) {
+	w := c.W
+	viol := ""
+	var sites []string
+	n := 0
+	for _, fn := range w.SSAFuncs {
+		if fn.Blocks == nil || fn.Parent() != nil || fn.Synthetic != "" || fn.Pkg == nil || !isAnalysedPkg(fn.Pkg.Pkg.Path()) {
+			continue
+		}
+		n++
+		for i, p := range fn.Params {
+			if fn.Signature.Recv() != nil && i == 0 {
+				continue
+			}
+			if p.Name() == "_" || p.Name() == "" {
+				continue
+			}
+			if p.Referrers() != nil && len(*p.Referrers()) > 0 {
+				continue
+			}
+			key := fnShort(fn) + " " + p.Name()
+			if _, ok := reviewedUnusedParams[key]; ok {
+				continue
+			}
+			// a renamed function keeps its reviewed exemption by parameter name
+			known := false
+			for k := range reviewedUnusedParams {
+				if strings.HasSuffix(k, " "+p.Name()) && strings.HasPrefix(k, fnShort(fn)+" ") {
+					known = true
+				}
+			}
+			if known {
+				continue
+			}
+			sites = append(sites, w.pos(p.Pos()))
+			viol = fmt.Sprintf("%s: parameter %s of %s is never used: what its callers hand over (%s) no longer reaches the code it was passed for", w.pos(p.Pos()), p.Name(), fnShort(fn), short(types.TypeString(p.Type(), nil)))
+		}
+	}
+	if n < 300 {
+		viol = fmt.Sprintf("only %d functions inspected (floor 300)", n)
+	}
+	if len(sites) == 0 {
+		sites = []string{"gleece:0"}
+	}
+	r.add(clause, "fieldflow", "no-dropped-parameters", "every named parameter of every gleece function is used (reviewed exceptions: 3)", nil, sites, viol)
+}
